@@ -1,5 +1,5 @@
 From Coq Require Import Extraction ExtrOcamlBasic QArith.
-From BCT Require Import Model.SymTerm Gen.SymTermGen Model.SymTermGenRun.
+From BCT Require Import Model.SymTerm Gen.SymTermGen Model.SymTermGenRun Model.SymTermKinds.
 Extraction Language OCaml.
 (* coqc runs with cwd = /verif/coq *)
-Extraction "../ocaml/gen/c04_model.ml" run_measure run_prog run_gen gen_count gen_same_as_hand gen_fingerprint Qred Z.add.
+Extraction "../ocaml/gen/c04_model.ml" run_measure run_prog run_gen gen_count gen_same_as_hand gen_fingerprint measure_kind gen_kind kind_by_id Qred Z.add.
